@@ -179,6 +179,14 @@ func runC04(r *Runner, g *Gen, tier string) string {
 			}
 		}
 	}
+	// 4. very long inputs (beyond what the model's decoder can follow in reasonable time): oracle only
+	for _, n := range []int{scale(tier, 120000, 400000), scale(tier, 300000, 1500000)} {
+		for _, kind := range []string{"strs", "structs", "ptrs", "ints", "f64s", "bytess", "map", "pmap", "pstrs"} {
+			for _, cf := range [][2]string{{"00", "00"}, {"01", "00"}, {"01", "01"}, {"00", "01"}} {
+				r.Do(L(A("declong"), A(cf[0]), A(cf[1]), A(kind), A(fmt.Sprint(n))), true, "declong")
+			}
+		}
+	}
 	return "every byte string up to the tier's length over a 15-byte alphabet (tags of known/unknown indexes and all wire types, 0x00, 0x7f, 0x80, 0xff) decoded into 22 target types covering every reader (exhaustive), the same bytes walked with the type's Descriptor, and the JSON-any map / array codecs and their descriptor walk on exhaustive short strings and mutated valid encodings; plus truncations, bit flips, huge-varint substitutions and rotations of valid encodings of generated types; compared: outcome class ok/err/panic and the decoded value on ok; plus valid encodings with thousands of elements / entries in every repeating wire form; oracle: any panic, fatal crash or hang of the implementation, and bytes allocated during the call above a type-dependent multiple of the input length; non-trivial = non-empty input"
 }
 
